@@ -60,6 +60,7 @@ func rh8Lenience(w *World) {
 	// each wrapper tests lenienceEnabled first and then swallows the error
 	len1 := w.field("options", "interpreter", "lenienceEnabled")
 	len2 := w.field("options", "interpreter", "lenientErrReported")
+	wrapperHelpers := map[string]bool{}
 	for name := range wrappers {
 		fr := w.fn("options", "(*interpreter)."+name)
 		if fr == nil || len1 == nil || len2 == nil {
@@ -72,6 +73,62 @@ func rh8Lenience(w *World) {
 				rt, ok2 := ifs.Body.List[1].(*ast.ReturnStmt)
 				if ok1 && ok2 && len(as.Lhs) == 1 && selField(info, as.Lhs[0]) == len2 && render(as.Rhs[0]) == "true" && len(rt.Results) == 1 && isNilIdent(info, rt.Results[0]) {
 					okShape = true
+				}
+			}
+		}
+		if !okShape && len(fr.Decl.Body.List) >= 2 {
+			// the test-and-record may live in a helper: `if interp.suppress…() { return nil }` where the
+			// helper returns true exactly when lenience is enabled, after recording the flag
+			if ifs, ok := fr.Decl.Body.List[0].(*ast.IfStmt); ok && len(ifs.Body.List) == 1 {
+				rt, isRet := ifs.Body.List[0].(*ast.ReturnStmt)
+				if c, isCall := ast.Unparen(ifs.Cond).(*ast.CallExpr); isCall && isRet && len(rt.Results) == 1 && isNilIdent(info, rt.Results[0]) {
+					if hf := callee(info, c); hf != nil {
+						if hd := w.decls[hf.Origin()]; hd != nil && hd.Body != nil {
+							g := buildCFG(info, hd.Body)
+							d := &Dataflow{G: g, Must: true, Init: Facts{}}
+							d.Transfer = func(n ast.Node, in Facts) Facts {
+								if as, ok := n.(*ast.AssignStmt); ok && len(as.Lhs) == 1 && selField(info, as.Lhs[0]) == len2 && render(as.Rhs[0]) == "true" {
+									return in.with("recorded")
+								}
+								return in
+							}
+							d.Branch = func(leaf ast.Expr, truth bool, st Facts) Facts {
+								if selField(info, leaf) == len1 {
+									if truth {
+										return st.with("enabled")
+									}
+									return st.with("disabled")
+								}
+								return st
+							}
+							d.Run()
+							good, nRet := true, 0
+							for _, e := range d.Exits(info, hd.Body.End()) {
+								r, ok := e.Last.(*ast.ReturnStmt)
+								if !ok || len(r.Results) != 1 {
+									good = false
+									continue
+								}
+								nRet++
+								switch render(r.Results[0]) {
+								case "true":
+									if !e.State["enabled"] || !e.State["recorded"] {
+										good = false
+									}
+								case "false":
+									if !e.State["disabled"] {
+										good = false
+									}
+								default:
+									good = false
+								}
+							}
+							if good && nRet >= 2 {
+								okShape = true
+								wrapperHelpers[hf.Origin().Name()] = true
+							}
+						}
+					}
 				}
 			}
 		}
@@ -90,7 +147,7 @@ func rh8Lenience(w *World) {
 			if as, ok := x.(*ast.AssignStmt); ok {
 				for _, l := range as.Lhs {
 					if v := selField(info, l); v != nil && (v == len1 || v == len2) {
-						if wrappers[b.Obj.Name()] || b.Obj.Name() == "enableLenience" {
+						if wrappers[b.Obj.Name()] || wrapperHelpers[b.Obj.Name()] || b.Obj.Name() == "enableLenience" {
 							w.okTrivial("flag-writer|"+b.Label+"|"+v.Name(), l.Pos(), "lenience flags are managed by the wrappers and enableLenience")
 						} else {
 							w.violation("flag-writer|"+b.Label+"|"+v.Name(), l.Pos(), "interpreter."+v.Name()+" written outside the wrappers / enableLenience")
